@@ -18,7 +18,7 @@ func vC11Observe(vm *Context, err error) string {
 	return out + " | " + vm.GetDetailText() + " | " + vm.Matched + " | " + vm.RestInput + " | " + vAttrsString(vm)
 }
 
-//vh:prop=C11 tiers=quick,thorough sigkeys=a,b summaries=Roll:roll-log budget_s=900 bounds="sequential non-interference for every ordered pair of the 21 entry scenarios (three of them continue with an expression compiled on demand through RunExpr, two of those ill-formed) on two VMs: after VM A finished, VM B (different language, different program) runs to completion; everything observable of A (value, process text, matched/rest text, variables) is unchanged, and A's next evaluation gives what it gives on a VM that never shared the process with B"
+//vh:prop=C11 tiers=quick,thorough sigkeys=a,b summaries=Roll:roll-log budget_s=900 bounds="sequential non-interference for every ordered pair of the 24 entry scenarios (three of them continue with an expression compiled on demand through RunExpr, two of those ill-formed) on two VMs: after VM A finished, VM B (different language, different program) runs to completion; everything observable of A (value, process text, matched/rest text, variables) is unchanged, and A's next evaluation gives what it gives on a VM that never shared the process with B"
 func VH_C11_seq() {
 	ia := vChoice("a", len(vC11Entries))
 	ib := vChoice("b", len(vC11Entries))
@@ -100,9 +100,12 @@ var vC11Entries = []struct {
 	{"computed-calls-failing-function", true, 0, "func bad() { 1 / 0 }; &c1 = bad() + 1; c1", ""},
 	{"nested-calls", true, 0, "func g1(x) { x * 2 }; func f1(x) { 1 + g1(x) + x }; f1(5)", ""},
 	{"computed-in-function", true, 0, "&c2 = 3 + 4; func f2(x) { c2 + x }; f2(1) + f2(2)", ""},
+	{"computed-assigns-a-name", true, 0, "&dmg = (bonus = 3d1) * 2; dmg", ""},
+	{"computed-reads-that-name", true, 0, "bonus = 100; &atk = bonus + 1; atk", ""},
+	{"computed-probes-that-name", true, 0, "&probe = bonus; probe", ""},
 }
 
-//vh:prop=C11 tiers=quick,thorough sigkeys=entry summaries=Roll:roll-log budget_s=600 bounds="21 API entry-point scenarios (syntax errors in two languages, seeded and unseeded dice of every family, bound methods, functions, computed values, templates with process text and bytecode listing, dict methods, builtins, random array methods, st, default-sides dice, run-time error) each on a fresh VM including NewVM, Run, all observers and a JSON snapshot: over all explored paths no plain (unlocked, non-atomic) store may hit memory reachable from a package-level variable of dicescript or x/exp/rand; W = {} means VMs that share no values can only meet on immutable data"
+//vh:prop=C11 tiers=quick,thorough sigkeys=entry summaries=Roll:roll-log budget_s=600 bounds="24 API entry-point scenarios (syntax errors in two languages, seeded and unseeded dice of every family, bound methods, functions, computed values, templates with process text and bytecode listing, dict methods, builtins, random array methods, st, default-sides dice, run-time error) each on a fresh VM including NewVM, Run, all observers and a JSON snapshot: over all explored paths no plain (unlocked, non-atomic) store may hit memory reachable from a package-level variable of dicescript or x/exp/rand; W = {} means VMs that share no values can only meet on immutable data"
 func VH_C11_foot() {
 	k := vChoice("entry", len(vC11Entries))
 	e := vC11Entries[k]
